@@ -18,7 +18,11 @@ extension: scalars `address key_hash key signature chain_id bls12_381_fr bls12_3
   type `c <ann> <type>` (contract); pyobj `D<+|-><coef>e<exp>` (finite Decimal) | `Dnan` | `Dinf`;
   any line may end with ` | <texthex>:<mask>:<rawhex|-> …`: what the real library says about the strings of the line —
   mask = five binary digits `is_address is_pkh is_public_key is_sig is_chain_id`, raw = `base58_decode` (`-` if it
-  raises).  That table is the `valid` / `raw` parameter of the model for this line (base58 is C09's). -/
+  raises).  That table is the `valid` / `raw` parameter of the model for this line (base58 is C09's).
+try_unpack: `topyu <type> <value>` = `to_python_object(try_unpack=True)`; `unpack <hex|->` = `blind_unpack`; the table
+  may then hold `e:<prefixhex>:<payloadhex|->:<texthex>` (`base58_encode(payload, prefix)`) and
+  `u:<datahex|->:<pyobj tokens joined by ~>` (`micheline_value_to_python_object(unforge_micheline(data))`, absent when
+  that raises) — the `b58` / `unpackMich` parameters. -/
 
 def readOpt (t : String) : Option (Option String) :=
   if t = "-" then some none
@@ -268,13 +272,30 @@ def handleWith (c : Cfg) (line : String) : String :=
     | _ => "bad-op"
   | _ => "bad-op"
 
-/-- `<texthex>:<mask>:<rawhex|->` -/
-def readFact (t : String) : Option (String × List Bool × List Nat) :=
+inductive Fact where
+  | text (s : String) (mask : List Bool) (raw : List Nat)
+  | enc (pre : String) (payload : List Nat) (text : String)
+  | unpacked (data : List Nat) (o : PyObj)
+
+def hexBytes (h : String) : Option (List Nat) := if h = "-" then some [] else parseHex h
+
+/-- `<texthex>:<mask>:<rawhex|->` | `e:<prefixhex>:<payloadhex|->:<texthex>` | `u:<datahex|->:<tok~tok…>` -/
+def readFact (t : String) : Option Fact :=
   match t.splitOn ":" with
+  | ["e", p, pl, tx] => do
+    let p ← hexStr p
+    let pl ← hexBytes pl
+    let tx ← hexStr tx
+    pure (.enc p pl tx)
+  | ["u", d, toks] => do
+    let d ← hexBytes d
+    match readPy (toks.splitOn "~") with
+    | some (o, []) => pure (.unpacked d o)
+    | _ => none
   | [h, m, r] => do
     let s ← hexStr h
-    let raw ← if r = "-" then some [] else parseHex r
-    pure (s, m.toList.map (· == '1'), raw)
+    let raw ← hexBytes r
+    pure (.text s (m.toList.map (· == '1')) raw)
   | _ => none
 
 def domIdx : Dom → Nat
@@ -283,24 +304,48 @@ def domIdx : Dom → Nat
 /-- `get_originated_address(0)` (compared with the real function by the harness) -/
 def originated0 : String := "KT1BEqzn5Wx8uJrZNvuS9DVHmLvG9td3fDLi"
 
-def mkCfg (f : Flags) (facts : List (String × List Bool × List Nat)) : Cfg :=
+def mkCfg (f : Flags) (facts : List Fact) (unpack : Bool) : Cfg :=
   { toFlags := f
-    valid := fun d s => match facts.find? (·.1 == s) with
-      | some (_, m, _) => m.getD (domIdx d) false
-      | none => false
-    raw := fun s => match facts.find? (·.1 == s) with
-      | some (_, _, r) => r
-      | none => []
-    originated0 := originated0 }
+    valid := fun d s => (facts.findSome? fun
+      | .text s' m _ => if s' == s then some (m.getD (domIdx d) false) else none
+      | _ => none).getD false
+    raw := fun s => (facts.findSome? fun
+      | .text s' _ r => if s' == s then some r else none
+      | _ => none).getD []
+    originated0 := originated0
+    tryUnpack := unpack
+    b58 := fun p pl => (facts.findSome? fun
+      | .enc p' pl' tx => if p' == p && pl' == pl then some tx else none
+      | _ => none).getD "?"
+    unpackMich := fun d => facts.findSome? fun
+      | .unpacked d' o => if d' == d then some o else none
+      | _ => none }
+
+def handleUnpack (f : Flags) (facts : List Fact) (l : String) : Option String :=
+  match words l with
+  | ["unpack", h] => (hexBytes h).map fun d => joinWith " " (showPy (blindUnpack (mkCfg f facts true) d))
+  | "topyu" :: ts =>
+    match readTy ts with
+    | some (τ, r) => match readVal r with
+      | some (v, []) => some (match toPy (mkCfg f facts true) false τ v with
+        | .ok py => joinWith " " (showPy py)
+        | .error e => showErr e)
+      | _ => some "bad-op"
+    | none => some "bad-op"
+  | _ => none
 
 def handle (line : String) : String :=
   match cfg? with
   | some f =>
+    let run (l : String) (facts : List Fact) : String :=
+      match handleUnpack f facts l with
+      | some out => out
+      | none => handleWith (mkCfg f facts false) l
     match line.splitOn " | " with
-    | [l] => handleWith (mkCfg f []) l
+    | [l] => run l []
     | [l, tbl] =>
       match (words tbl).mapM readFact with
-      | some facts => handleWith (mkCfg f facts) l
+      | some facts => run l facts
       | none => "bad-op"
     | _ => "bad-op"
   | none => "unrecognised-source"
